@@ -205,6 +205,29 @@ def gen_cases(ctx):
         cases.append({"kind": "star", "lens": lens, "sched": sched, "seed": rng.randrange(10 ** 9),
                       "cls": rng.choice(["state", "operator", "network"]),
                       "prefix": rng.choice(["node", "c"]), "center": rng.choice(["central", "mid"])})
+    # arbitrary (mostly invalid) call sequences: library and model must accept / reject alike
+    for _ in range(ctx.n(80, 800)):
+        dimc = [2] if rng.random() < 0.7 else [1, 2]
+        ncl = rng.randint(1, 4)
+        cshape = [rng.choice(dimc) for _ in range(ncl)]
+        calls, nch = [], 0
+        for _ in range(rng.randint(1, 6)):
+            c = rng.randint(0, nch) if rng.random() < 0.85 else rng.randint(0, 4)
+            if c == nch:
+                nch += 1
+            calls.append([c, [rng.choice(dimc) for _ in range(rng.choice([1, 2, 2, 3]))]])
+        cases.append({"kind": "starany", "cshape": cshape, "calls": calls})
+    for _ in range(ctx.n(80, 800)):
+        dimc = [2] if rng.random() < 0.7 else [1, 2]
+        calls, nm = [["m", [rng.choice(dimc) for _ in range(rng.randint(1, 4))]]] if rng.random() < 0.9 else [], 1
+        for _ in range(rng.randint(1, 6)):
+            sh = [rng.choice(dimc) for _ in range(rng.choice([1, 2, 3, 3, 4]))]
+            if rng.random() < 0.4:
+                calls.append(["m", sh])
+                nm += 1
+            else:
+                calls.append(["s", rng.randrange(nm) if rng.random() < 0.85 else rng.randint(0, 4), sh])
+        cases.append({"kind": "forkany", "calls": calls})
     # ---- fork
     for w in range(2, 5):
         for h in range(2, 5):
@@ -350,6 +373,31 @@ def model_lines(case):
         return [f"C19 mps {case['n']} {case['r']} {ps}"]
     if k == "gridpairs":
         return [f"C19 grid {case['rows']} {case['cols']}"]
+    if k == "starconst":
+        return [f"C19 starconst {case['d']} {case['L']} {case['C']}"]
+    if k == "star":
+        sh = _star_shapes(case)
+        pos = [0] * len(case["lens"])
+        toks = []
+        for c in case["sched"]:
+            toks.append(f"{c}:{_shape_tok(sh[(c, pos[c])])}")
+            pos[c] += 1
+        return [f"C19 star {_shape_tok(sh['center'])} " + " ".join(toks)]
+    if k == "starany":
+        return [f"C19 star {_shape_tok(case['cshape'])} " + " ".join(f"{c}:{_shape_tok(sh)}" for c, sh in case["calls"])]
+    if k == "forkany":
+        return ["C19 fork " + " ".join(("m:" + _shape_tok(c[1])) if c[0] == "m" else (f"s{c[1]}:" + _shape_tok(c[2]))
+                                       for c in case["calls"])]
+    if k == "forkconst":
+        return [f"C19 forkconst {case['d']} {case['w']} {case['h']} {case['bd']}"]
+    if k == "fork":
+        sh = _fork_shapes(case)
+        toks = []
+        for ev, nid in zip(case["events"], sh["creation"]):
+            toks.append(("m" if ev[0] == "m" else f"s{ev[1]}") + ":" + _shape_tok(sh["shape"][nid]))
+        return ["C19 fork " + " ".join(toks)]
+    if k == "binary":
+        return [f"C19 binary {case['nphys']} {case['bd']} {case['d']}"]
     if k == "model":
         if case["shape"] in ("grid", "gridarr"):
             return [f"C19 grid {case['rows']} {case['cols']}", f"C19 isinggrid {case['rows']} {case['cols']}"]
@@ -408,6 +456,7 @@ def run_case(ctx, case, model_out=None):
         model_out = ctx.lean.batch(ls) if ls else []
     fn = {"mps": _case_mps, "mpsconst": _case_mpsconst, "starconst": _case_starconst, "star": _case_star,
           "forkconst": _case_forkconst, "fork": _case_fork, "binary": _case_binary,
+          "starany": _case_any, "forkany": _case_any,
           "fromtensor": _case_fromtensor, "model": _case_model, "gridpairs": _case_gridpairs,
           "nnham": _case_nnham, "exact": _case_exact}[case["kind"]]
     fn(ctx, case, model_out)
@@ -586,6 +635,46 @@ def _case_mpsconst(ctx, case, model_out):
 
 # =============================================================================== (b) star / fork / binary
 
+def _shape_tok(shape):
+    return ",".join(str(int(x)) for x in shape) if len(shape) else "-"
+
+
+def _compare_structure(ctx, case, what, ttn, model_line, to_lib, inputs=None):
+    """Exact structure correspondence with the Lean model: dict order, parent, child order, per-node leg order
+    (through the tensor: library tensor == input transposed by the model's legs) and shapes.
+    `to_lib` maps a model identifier token to the library identifier."""
+    if model_line is None:
+        return
+    if model_line in ("none", "bad-op"):
+        ctx.corr_fail(case, f"{what}: model answered {model_line} but the library built a network")
+        return
+    mod = []
+    for tok in model_line.split(";"):
+        i, p, ch, legs, dims = tok.split(":")
+        mod.append((to_lib(i), None if p == "-" else to_lib(p), [to_lib(c) for c in ch.split(",") if c != ""],
+                    [int(x) for x in legs.split(",") if x != ""], [int(x) for x in dims.split(",") if x != ""]))
+    impl = [(nid, ttn.nodes[nid].parent, list(ttn.nodes[nid].children)) for nid in ttn.nodes]
+    if impl != [(a, b, c) for (a, b, c, _, _) in mod]:
+        ctx.corr_fail(case, f"{what}: structure impl={impl} model={[(a, b, c) for (a, b, c, _, _) in mod]}")
+        return
+    for (nid, _, _, legs, dims) in mod:
+        t = ttn.tensors[nid]
+        if sorted(legs) != list(range(len(dims))) or tuple(t.shape) != tuple(dims[a] for a in legs):
+            ctx.corr_fail(case, f"{what}: node {nid} has shape {t.shape}, model legs {legs} of dims {dims}")
+            return
+        if inputs is not None and nid in inputs and not np.array_equal(t, np.transpose(inputs[nid], legs)):
+            ctx.corr_fail(case, f"{what}: tensor of {nid} is not the input transposed by the model's legs {legs}")
+            return
+
+
+def _star_shapes(case):
+    """Shapes of the specified tensors of a `star` case (same draws as `_case_star`)."""
+    return _star_spec(case)[1]
+
+
+def _fork_shapes(case):
+    return _fork_spec(case)[1]
+
 def _star_parent_map(prefix, center, lens):
     pm = {center: None}
     for c, L in enumerate(lens):
@@ -597,7 +686,7 @@ def _star_parent_map(prefix, center, lens):
 def _case_starconst(ctx, case, _m):
     from pytreenet.special_ttn.star import StarTreeTensorState
     v, d, L, C, prefix = case["v"], case["d"], case["L"], case["C"], case["prefix"]
-    ctx.count(("starconst", v, d, L, C), nontrivial=(d != 2 or C > 1 or L > 1))
+    ctx.count(("starconst", v, d, L, C), nontrivial=(d != 2 or C > 1 or L > 1), corr=bool(_m))
     ctx.tally("star_const_dim", d)
     try:
         st = StarTreeTensorState.constant_product_state(v, d, L, C, node_prefix=prefix)
@@ -605,6 +694,9 @@ def _case_starconst(ctx, case, _m):
         ctx.oracle_fail(case, f"star constant_product_state(v={v}, d={d}, chain_length={L}, num_chains={C}) raised "
                               f"{type(e).__name__}: {str(e)[:160]}")
         return
+    if _m:
+        _compare_structure(ctx, case, "star constant_product_state", st, _m[0],
+                           lambda t: "central" if t == "C" else prefix + t.replace(".", "_"))
     pm = _star_parent_map(prefix, "central", [L] * C)
     probs = list(dense.well_formed(st))
     p = _ids_problem(st, pm.keys()) or _parents_problem(st, pm)
@@ -638,21 +730,18 @@ def _open_dims(nprng, cls, limit_state):
     return [int(nprng.choice([1, 2, 3])) for _ in range(int(nprng.choice([0, 1, 1, 2])))]
 
 
-def _case_star(ctx, case, _m):
-    from pytreenet.special_ttn.star import StarTreeTensorNetwork, StarTreeTensorState, StarTreeOperator
-    cls = {"state": StarTreeTensorState, "operator": StarTreeOperator, "network": StarTreeTensorNetwork}[case["cls"]]
-    lens, sched, prefix, center = case["lens"], case["sched"], case["prefix"], case["center"]
+def _star_spec(case):
+    """Specified tensors of a `star` case: centre (bond_0..bond_{C-1}, open...), chain node (parent, next?, open...).
+    Returns (spec {id: (array, labels)}, shapes {'center' | (c, j): shape}, ids)."""
+    lens, prefix, center = case["lens"], case["prefix"], case["center"]
     C = len(lens)
     nprng = np.random.default_rng(case["seed"])
-    ctx.count(("star", case["seed"]), nontrivial=(C > 1 or max(lens) > 1))
-    ctx.tally("star_chains", C)
-    # specified tensors: centre (bond_0..bond_{C-1}, open...), chain node (parent, next?, open...)
     bond = {}
     for c in range(C):
         for j in range(lens[c]):
             bond[(c, j)] = int(nprng.choice([1, 2, 2, 3]))      # bond between (c, j-1) [centre if j = 0] and (c, j)
     total = 1
-    spec, ids = {}, [center]
+    spec, ids, shapes = {}, [center], {}
     opens = {center: _open_dims(nprng, case["cls"], 0)}
     for c in range(C):
         for j in range(lens[c]):
@@ -665,6 +754,7 @@ def _case_star(ctx, case, _m):
             opens[k] = [1 for _ in opens[k]]
     ct = gen.rand_tensor(nprng, [bond[(c, 0)] for c in range(C)] + opens[center])
     spec[center] = (ct, [("b", c, 0) for c in range(C)] + [("o", center, k) for k in range(len(opens[center]))])
+    shapes["center"] = list(ct.shape)
     for c in range(C):
         for j in range(lens[c]):
             nid = f"{prefix}{c}_{j}"
@@ -674,6 +764,18 @@ def _case_star(ctx, case, _m):
             t = gen.rand_tensor(nprng, sh)
             spec[nid] = (t, [("b", c, j)] + ([] if last else [("b", c, j + 1)])
                          + [("o", nid, k) for k in range(len(opens[nid]))])
+            shapes[(c, j)] = list(sh)
+    return spec, shapes, ids
+
+
+def _case_star(ctx, case, model_out):
+    from pytreenet.special_ttn.star import StarTreeTensorNetwork, StarTreeTensorState, StarTreeOperator
+    cls = {"state": StarTreeTensorState, "operator": StarTreeOperator, "network": StarTreeTensorNetwork}[case["cls"]]
+    lens, sched, prefix, center = case["lens"], case["sched"], case["prefix"], case["center"]
+    C = len(lens)
+    ctx.count(("star", case["seed"]), nontrivial=(C > 1 or max(lens) > 1), corr=bool(model_out))
+    ctx.tally("star_chains", C)
+    spec, _, ids = _star_spec(case)
     try:
         st = cls(central_node_identifier=center, non_center_prefix=prefix)
         st.add_center_node(spec[center][0].copy())
@@ -682,9 +784,15 @@ def _case_star(ctx, case, _m):
             st.add_chain_node(spec[f"{prefix}{c}_{pos[c]}"][0].copy(), c)
             pos[c] += 1
     except Exception as e:  # noqa: BLE001
+        if model_out and model_out[0] != "none":
+            ctx.corr_fail(case, f"star: library raised {type(e).__name__} but the model accepts the calls")
         ctx.oracle_fail(case, f"star add_chain_node schedule {sched} (lens {lens}) raised {type(e).__name__}: "
                               f"{str(e)[:160]}")
         return
+    if model_out:
+        _compare_structure(ctx, case, "star", st, model_out[0],
+                           lambda t: center if t == "C" else prefix + t.replace(".", "_"),
+                           {k: v[0] for k, v in spec.items()})
     pm = _star_parent_map(prefix, center, lens)
     probs = list(dense.well_formed(st))
     p = _ids_problem(st, pm.keys()) or _parents_problem(st, pm)
@@ -697,6 +805,67 @@ def _case_star(ctx, case, _m):
             probs.append("contraction differs from the network of the specified tensors")
     if probs:
         ctx.oracle_fail(case, f"star from tensors (lens={lens}, schedule={sched}, {case['cls']}): " + "; ".join(probs[:4]))
+
+
+def _case_any(ctx, case, model_out):
+    """Arbitrary call sequences of add_chain_node / add_main_chain_node / add_sub_chain_node: the library and
+    the model must accept or reject alike; accepted networks must be well-formed and match the model."""
+    from pytreenet.special_ttn.star import StarTreeTensorNetwork
+    from pytreenet.special_ttn.fttn import ForkTreeTensorNetwork
+    star = case["kind"] == "starany"
+    inputs, err = {}, None
+    try:
+        if star:
+            net = StarTreeTensorNetwork()
+            t = np.arange(int(np.prod(case["cshape"])), dtype=float).reshape(case["cshape"])
+            inputs["center"] = t
+            net.add_center_node(t.copy())
+            pos = {}
+            for c, sh in case["calls"]:
+                t = (np.arange(int(np.prod(sh)), dtype=float) + 1).reshape(sh)
+                nid = f"node{c}_{pos.get(c, 0)}"
+                net.add_chain_node(t.copy(), c)
+                inputs[nid] = t
+                pos[c] = pos.get(c, 0) + 1
+        else:
+            net = ForkTreeTensorNetwork()
+            nm, pos = 0, {}
+            for call in case["calls"]:
+                sh = call[-1]
+                t = (np.arange(int(np.prod(sh)), dtype=float) + 1).reshape(sh)
+                if call[0] == "m":
+                    net.add_main_chain_node(t.copy())
+                    inputs[f"main{nm}"] = t
+                    nm += 1
+                else:
+                    i = call[1]
+                    net.add_sub_chain_node(t.copy(), i)
+                    inputs[f"sub{i}_{pos.get(i, 0)}"] = t
+                    pos[i] = pos.get(i, 0) + 1
+    except Exception as e:  # noqa: BLE001
+        err = e
+    accepted = err is None
+    ctx.count((case["kind"], json.dumps(case, sort_keys=True)), nontrivial=accepted, corr=True)
+    ctx.tally(case["kind"], "accepted" if accepted else type(err).__name__)
+    m = model_out[0] if model_out else None
+    if m is None:
+        return
+    if not accepted:
+        if m != "none":
+            ctx.corr_fail(case, f"{case['kind']}: library raised {type(err).__name__}: {str(err)[:80]} but the model "
+                                f"accepts: {m[:120]}")
+        return
+    if m == "none":
+        ctx.corr_fail(case, f"{case['kind']}: library accepts {case} but the model rejects")
+        return
+    if star:
+        _compare_structure(ctx, case, "star(any)", net, m,
+                           lambda t: "center" if t == "C" else "node" + t.replace(".", "_"), inputs)
+    else:
+        _compare_structure(ctx, case, "fork(any)", net, m, _fork_tok, inputs)
+    probs = dense.well_formed(net)
+    if probs:
+        ctx.oracle_fail(case, f"{case['kind']}: accepted call sequence gives an ill-formed network: {probs[:3]}")
 
 
 def _fork_parent_map(pm_prefix, ps_prefix, nmain, sublens):
@@ -714,7 +883,7 @@ def _case_forkconst(ctx, case, _m):
     mp, sp = case["prefixes"]
     nprng = np.random.default_rng(case["seed"])
     local = gen.rand_tensor(nprng, (d,))
-    ctx.count(("forkconst", w, h, bd, d), nontrivial=(bd > 1 or w > 2 or h > 2))
+    ctx.count(("forkconst", w, h, bd, d), nontrivial=(bd > 1 or w > 2 or h > 2), corr=bool(_m))
     ctx.tally("fork_const_bond", bd)
     try:
         f = constant_ftps(local.copy(), w, h, bond_dim=bd, main_identifier_prefix=mp, subchain_identifier_prefix=sp)
@@ -724,6 +893,8 @@ def _case_forkconst(ctx, case, _m):
         return
     # the code builds a width x height grid: `height` main nodes, each row `width` nodes long (see notes/C19.md:
     # the Args text of the docstring swaps the two words; the property speaks of "w x h nodes")
+    if _m:
+        _compare_structure(ctx, case, "constant_ftps", f, _m[0], lambda t: _fork_tok(t, mp, sp))
     pm = _fork_parent_map(mp, sp, h, [w - 1] * h)
     probs = list(dense.well_formed(f))
     p = _ids_problem(f, pm.keys()) or _parents_problem(f, pm)
@@ -748,16 +919,12 @@ def _case_forkconst(ctx, case, _m):
         ctx.oracle_fail(case, f"constant_ftps(width={w}, height={h}, bond_dim={bd}, d={d}): " + "; ".join(probs[:4]))
 
 
-def _case_fork(ctx, case, _m):
-    from pytreenet.special_ttn.fttn import ForkTreeTensorNetwork, ForkTreeProductState, ForkTreeProductOperator
-    cls = {"state": ForkTreeProductState, "operator": ForkTreeProductOperator,
-           "network": ForkTreeTensorNetwork}[case["cls"]]
+def _fork_spec(case):
+    """Specified tensors of a `fork` case: every node (parent?, neighbours in attachment order, open...).
+    Returns (spec {id: (array, labels)}, {'creation': [ids in call order], 'shape': {id: shape}}, parent map)."""
     nmain, sublens, events = case["nmain"], case["sublens"], case["events"]
     nprng = np.random.default_rng(case["seed"])
-    ctx.count(("fork", case["seed"]), nontrivial=True)
-    ctx.tally("fork_main", nmain)
     pm = _fork_parent_map("main", "sub", nmain, sublens)
-    # neighbours of every node in attachment order (the order in which the library is asked to attach them)
     attach = {nid: [] for nid in pm}
     made, sub = 0, [0] * nmain
     creation = []
@@ -779,12 +946,29 @@ def _case_fork(ctx, case, _m):
             total *= d
     if total > 20000:
         opens = {k: [1 for _ in v] for k, v in opens.items()}
-    spec = {}
+    spec, shape = {}, {}
     for nid in pm:
         sh = ([bond[nid]] if pm[nid] is not None else []) + [bond[c] for c in attach[nid]] + opens[nid]
         lab = ([("b", nid)] if pm[nid] is not None else []) + [("b", c) for c in attach[nid]] \
             + [("o", nid, k) for k in range(len(opens[nid]))]
         spec[nid] = (gen.rand_tensor(nprng, sh), lab)
+        shape[nid] = list(sh)
+    return spec, {"creation": creation, "shape": shape}, pm
+
+
+def _fork_tok(t, mp="main", sp="sub"):
+    return (mp + t[1:]) if t[0] == "M" else (sp + t[1:].replace(".", "_"))
+
+
+def _case_fork(ctx, case, model_out):
+    from pytreenet.special_ttn.fttn import ForkTreeTensorNetwork, ForkTreeProductState, ForkTreeProductOperator
+    cls = {"state": ForkTreeProductState, "operator": ForkTreeProductOperator,
+           "network": ForkTreeTensorNetwork}[case["cls"]]
+    nmain, sublens, events = case["nmain"], case["sublens"], case["events"]
+    ctx.count(("fork", case["seed"]), nontrivial=True, corr=bool(model_out))
+    ctx.tally("fork_main", nmain)
+    spec, info, pm = _fork_spec(case)
+    creation = info["creation"]
     try:
         f = cls()
         for ev, nid in zip(events, creation):
@@ -793,8 +977,12 @@ def _case_fork(ctx, case, _m):
             else:
                 f.add_sub_chain_node(spec[nid][0].copy(), ev[1])
     except Exception as e:  # noqa: BLE001
+        if model_out and model_out[0] != "none":
+            ctx.corr_fail(case, f"fork: library raised {type(e).__name__} but the model accepts the calls")
         ctx.oracle_fail(case, f"fork schedule {events} raised {type(e).__name__}: {str(e)[:160]}")
         return
+    if model_out:
+        _compare_structure(ctx, case, "fork", f, model_out[0], _fork_tok, {k: v[0] for k, v in spec.items()})
     probs = list(dense.well_formed(f))
     p = _ids_problem(f, pm.keys()) or _parents_problem(f, pm)
     if p:
@@ -815,7 +1003,7 @@ def _case_binary(ctx, case, _m):
     pp, vp = case["prefixes"]
     nprng = np.random.default_rng(case["seed"])
     phys = gen.rand_tensor(nprng, (bd, d))
-    ctx.count(("binary", nphys, bd, d), nontrivial=(nphys > 2 or bd > 1))
+    ctx.count(("binary", nphys, bd, d), nontrivial=(nphys > 2 or bd > 1), corr=bool(_m))
     ctx.tally("binary_nphys", nphys)
     try:
         b = generate_binary_ttns(nphys, bd, phys.copy(), phys_prefix=pp, virtual_prefix=vp)
@@ -823,6 +1011,9 @@ def _case_binary(ctx, case, _m):
         ctx.oracle_fail(case, f"generate_binary_ttns(num_phys={nphys}, bond_dim={bd}, d={d}) raised "
                               f"{type(e).__name__}: {str(e)[:160]}")
         return
+    if _m:
+        _compare_structure(ctx, case, "generate_binary_ttns", b, _m[0],
+                           lambda t: (vp + t[1:].replace(".", "_")) if t[0] == "V" else (pp + t[1:]))
     probs = list(dense.well_formed(b))
     phys_ids = [f"{pp}{i}" for i in range(nphys)]
     virt = [nid for nid in b.nodes if nid not in phys_ids]
